@@ -986,7 +986,12 @@ func (w *WAL) Close() error {
 	defer w.writeMu.Unlock()
 
 	// It doesn't matter if there is a rotation scheduled because runRotate will
-	// exist when it sees we are closed anyway.
+	// exist when it sees we are closed anyway. It won't signal completion in
+	// that case though, so wake any writer that is waiting for the rotation
+	// (it will find the WAL closed once it has the lock).
+	if w.awaitRotate != nil {
+		close(w.awaitRotate)
+	}
 	w.awaitRotate = nil
 	// Awake and terminate the runRotate
 	close(w.triggerRotate)
